@@ -546,6 +546,65 @@ def SpecRun (spec : List Str → Str → Decision → Prop) : List Str → List 
     spec keys name d ∧ SpecRun spec (match d with | .add n => keys ++ [lower n] | _ => keys) rest ds
   | _, _, _ => False
 
+/-- `n` is `<xref>$<i>$<name>` for the least i whose case-folded name is not in `keys` (i ≤ |keys| by the pigeonhole argument) -/
+def leastFree (xref name : Str) (keys : List Str) (n : Str) : Bool :=
+  (List.range (keys.length + 1)).any fun i =>
+    n == cand xref name i && !keys.contains (lower (cand xref name i)) &&
+      (List.range i).all fun j => keys.contains (lower (cand xref name j))
+
+/-- executable checker of `PolicySpec`: applied by the driver to the decisions the REAL code took -/
+def decideSpec (pol : Policy) (xref : Str) (keys : List Str) (name : Str) (d : Decision) : Bool :=
+  match pol with
+  | .keep =>
+    if keys.contains (lower name) then (match d with | .useExisting _ => true | _ => false) else d == .add name
+  | .xrefPrefix => match d with | .add n => leastFree xref name keys n | _ => false
+  | .numPrefix =>
+    if keys.contains (lower name) then (match d with | .add n => leastFree [] name keys n | _ => false) else d == .add name
+
+/-- executable checker of `SpecRun (PolicySpec pol xref)` -/
+def specRunB (pol : Policy) (xref : Str) : List Str → List (Str × Nat) → List Decision → Bool
+  | _, [], [] => true
+  | keys, (name, _) :: rest, d :: ds =>
+    decideSpec pol xref keys name d && specRunB pol xref (match d with | .add n => keys ++ [lower n] | _ => keys) rest ds
+  | _, _, _ => false
+
+/-! ### generated dictionary keys (`ObjectsSection.next_underlay_key`) -/
+
+/-- `next_underlay_key(checkfunc)`: the per-document counter is advanced until `checkfunc(key)` holds; `checked = false` is a call
+    without check function (every key passes).  `fmt` = the key format ("Underlay%05d"), `c` = the counter, which a document loaded from
+    a file starts again at its initial value.  Total because some counter value in `[c, c + |keys|]` gives a key that is not taken. -/
+def nextKeyIndex (checked : Bool) (fmt : Nat → Str) (keys : List Str) (c : Nat)
+    (h : ∃ k, c ≤ k ∧ k ≤ c + keys.length ∧ (!checked || !keys.contains (fmt k)) = true) : Nat :=
+  searchFrom (fun i => !checked || !keys.contains (fmt i)) (c + keys.length) c h
+
+/-- among the counter values `c … c + |keys|` one gives a key that is not taken (pigeonhole, shifted) -/
+theorem exists_free_from (fmt : Nat → Str) (hf : ∀ i j, fmt i = fmt j → i = j) (keys : List Str) (c : Nat) (checked : Bool) :
+    ∃ k, c ≤ k ∧ k ≤ c + keys.length ∧ (!checked || !keys.contains (fmt k)) = true := by
+  obtain ⟨k, _, hk, hfree⟩ := exists_free (fun i => fmt (c + i)) (fun i j h => by have := hf _ _ h; omega) keys
+  have hn : fmt (c + k) ∉ keys := by simpa using hfree
+  exact ⟨c + k, by omega, by omega, by simp only [Bool.or_eq_true]; exact Or.inr (by simpa using hn)⟩
+
+/-- the key `next_underlay_key` returns for a document whose counter stands at `c` -/
+def nextKey (checked : Bool) (fmt : Nat → Str) (hf : ∀ i j, fmt i = fmt j → i = j) (keys : List Str) (c : Nat) : Str :=
+  fmt (nextKeyIndex checked fmt keys c (exists_free_from fmt hf keys c checked))
+
+/-! ### one pass over the tables with requirement edges (Importer add-on, `_import_required_table_entries`) -/
+
+/-- importing the required entries of table `t`: its pending requirements are served, and the entries may require entries of the
+    tables `b` with an edge (t, b) (worst case: every edge fires) -/
+def importStep (adds : List (Nat × Nat)) (pending : List Nat) (t : Nat) : List Nat :=
+  if pending.contains t then pending.filter (· ≠ t) ++ (adds.filter (·.1 = t)).map (·.2) else pending
+
+/-- the tables are imported once each, in the given order; result = the tables that still have unserved requirements -/
+def importPass (adds : List (Nat × Nat)) : List Nat → List Nat → List Nat
+  | pending, [] => pending
+  | pending, t :: rest => importPass adds (importStep adds pending t) rest
+
+/-- every requirement edge into a table of the order comes from a table that is imported EARLIER (or not in this pass at all) -/
+def orderRespects : List Nat → List (Nat × Nat) → Bool
+  | [], _ => true
+  | t :: rest, adds => (adds.all fun e => e.2 != t || !(t :: rest).contains e.1) && orderRespects rest adds
+
 /-- the copies a restored block record owns: the copies of its BLOCK, its ENDBLK and of the content entities that were copied -/
 def ownedCopies (σ : Sigma) (sn : Node) (b e : Nat) : List Nat :=
   σ.get b :: σ.get e :: (sn.content.map σ.get).filter (· ≠ 0)
